@@ -127,7 +127,7 @@ func (c Case) sharedObjects() []string {
 }
 
 func genIndex(t *rapid.T, label string) string {
-	return rapid.SampledFrom([]string{"", "next", "next", "rand", "rand", "last"}).Draw(t, label)
+	return rapid.SampledFrom([]string{"", "next", "next", "rand", "rand", "last", "last"}).Draw(t, label)
 }
 
 func genScen(t *rapid.T, grpc bool) *Scen {
@@ -165,7 +165,7 @@ func genScen(t *rapid.T, grpc bool) *Scen {
 // genCase draws a case; r (may be nil) tells which findings are listed as known.
 func genCase(t *rapid.T, r *vf.Run) Case {
 	c := Case{}
-	c.Kind = rapid.SampledFrom([]string{kindHTTP, kindHTTPScen, kindHTTPScen, kindGRPC, kindGRPCScen, kindGRPCScen}).Draw(t, "kind")
+	c.Kind = rapid.SampledFrom([]string{kindHTTP, kindHTTP, kindHTTPScen, kindHTTPScen, kindHTTPScen, kindGRPC, kindGRPCScen, kindGRPCScen, kindGRPCScen}).Draw(t, "kind")
 	c.Instances = rapid.IntRange(2, 16).Draw(t, "instances")
 	per := rapid.IntRange(2, 6).Draw(t, "shotsPerInstance")
 	c.Shots = min(c.Instances*per, 72)
